@@ -46,10 +46,10 @@ _new_rxn = st.fixed_dictionaries({
 })
 
 OPS: Dict[str, Any] = {
-    "add_reactions": _d("add_reactions", rxns=st.lists(_new_rxn, min_size=1, max_size=3)),
+    "add_reactions": _d("add_reactions", rxns=st.lists(_new_rxn, min_size=1, max_size=3, unique_by=lambda d: d["id"])),
     "remove_reactions": _d("remove_reactions", sels=st.lists(_k, min_size=1, max_size=3), by=st.sampled_from(["obj", "id", "mixed"]),
                            orphans=st.booleans(), single=st.booleans(), via=st.sampled_from(["model", "model", "rxn"])),
-    "add_metabolites": _d("add_metabolites", mets=st.lists(st.integers(0, N_MID - 1), min_size=1, max_size=3), single=st.booleans()),
+    "add_metabolites": _d("add_metabolites", mets=st.lists(st.integers(0, N_MID - 1), min_size=1, max_size=3, unique=True), single=st.booleans()),
     "remove_metabolites": _d("remove_metabolites", sels=st.lists(_k, min_size=1, max_size=2), destructive=st.booleans(),
                              via=st.sampled_from(["model", "model", "met"])),
     "add_boundary": _d("add_boundary", met=_k, type=st.sampled_from(["exchange", "demand", "sink", "custom"]),
@@ -94,7 +94,7 @@ OPS: Dict[str, Any] = {
     "tolerance": _d("tolerance", value=st.sampled_from([1e-7, 1e-6, 1e-9])),
     "helper": _d("helper", which=st.sampled_from(["fix_objective", "fix_objective", "add_pfba", "add_moma", "add_room", "add_loopless", "add_lp_feasibility", "abs_expr"]),
                  frac=st.sampled_from([1.0, 0.5, 0.9]), rxn=_k),
-    "merge": _d("merge", rxns=st.lists(_new_rxn, min_size=1, max_size=2), prefix=st.sampled_from([None, None, "x_"]), objective=st.sampled_from(["left", "left", "right", "sum"]),
+    "merge": _d("merge", rxns=st.lists(_new_rxn, min_size=1, max_size=2, unique_by=lambda d: d["id"]), prefix=st.sampled_from([None, None, "x_"]), objective=st.sampled_from(["left", "left", "right", "sum"]),
                 inplace=st.booleans()),
 }
 
